@@ -343,4 +343,30 @@ def runCall {μ δ ρ : Type} (T : Tables) (n : Naming) (ops : MsgOps μ δ) (fl
           .ok { calls := if issued fl m' then [⟨s.path, s.kind, xs⟩] else [],
                 ret := clientReturn m' replies }
 
+/-! ### The stub cache and channel identity
+
+`self._stubs` maps a stub key to a multi-callable that is BOUND to the channel it was created on.
+`__init__` of both gRPC transports executes `self._stubs = {}` (an instance attribute shadowing the
+class-level `_stubs` of the asyncio transport), then `_prep_wrapped_messages` evaluates every stub
+property:  `if key not in self._stubs: self._stubs[key] = self._logged_channel.<kind>(…)`. -/
+
+/-- key ↦ identity of the channel the cached multi-callable is bound to -/
+abbrev StubCache := List (Str × Nat)
+
+/-- a stub property read on a transport whose channel is `chan` -/
+def getStub (cache : StubCache) (key : Str) (chan : Nat) : StubCache × Nat :=
+  match cache.lookup key with
+  | some c => (cache, c)
+  | none => ((key, chan) :: cache, chan)
+
+/-- `_prep_wrapped_messages` on a cache: touches every key in order -/
+def prepCache (cache : StubCache) (keys : List Str) (chan : Nat) : StubCache :=
+  keys.foldl (fun c k => (getStub c k chan).1) cache
+
+/-- a transport instance as `__init__` leaves it: a FRESH cache filled on its own channel -/
+def initTransport (keys : List Str) (chan : Nat) : StubCache := prepCache [] keys chan
+
+/-- channel on which a call through `key` is issued by a transport with cache `cache` -/
+def callChannel (cache : StubCache) (key : Str) (chan : Nat) : Nat := (getStub cache key chan).2
+
 end GapicModel.Model.Grpc
